@@ -13,78 +13,78 @@ From TV Require Import Base.Result Packet.ByteOps Packet.IcmpExt.
 
 (* ---------------- Ipv4Packet ---------------- *)
 Definition ipv4_min : nat := 20.
-Definition ipv4_get_version (buf : list Z) : result Z := let* b := buf_read 0 buf in Ok (u8_shr (u8_and b 240) 4).
-Definition ipv4_get_header_length (buf : list Z) : result Z := let* b := buf_read 0 buf in Ok (u8_and b 15).
-Definition ipv4_get_dscp (buf : list Z) : result Z := let* b := buf_read 1 buf in Ok (u8_shr (u8_and b 252) 2).
-Definition ipv4_get_ecn (buf : list Z) : result Z := let* b := buf_read 1 buf in Ok (u8_and b 3).
-Definition ipv4_get_tos (buf : list Z) : result Z :=
-  let* d := ipv4_get_dscp buf in let* e := ipv4_get_ecn buf in Ok (u8_or (u8_shl d 2) e).
-Definition ipv4_get_total_length (buf : list Z) : result Z := buf_get_u16 2 buf.
-Definition ipv4_get_identification (buf : list Z) : result Z := buf_get_u16 4 buf.
-Definition ipv4_get_flags_and_fragment_offset (buf : list Z) : result Z := buf_get_u16 6 buf.
-Definition ipv4_get_ttl (buf : list Z) : result Z := buf_read 8 buf.
-Definition ipv4_get_protocol (buf : list Z) : result Z := buf_read 9 buf.
-Definition ipv4_get_checksum (buf : list Z) : result Z := buf_get_u16 10 buf.
-Definition ipv4_get_source (buf : list Z) : result (list Z) := buf_get_bytes 4 12 buf.
-Definition ipv4_get_destination (buf : list Z) : result (list Z) := buf_get_bytes 4 16 buf.
+Definition pv_ipv4_get_version (buf : list Z) : result Z := let* b := pv_buf_read 0 buf in Ok (pv_u8_shr (pv_u8_and b 240) 4).
+Definition pv_ipv4_get_header_length (buf : list Z) : result Z := let* b := pv_buf_read 0 buf in Ok (pv_u8_and b 15).
+Definition pv_ipv4_get_dscp (buf : list Z) : result Z := let* b := pv_buf_read 1 buf in Ok (pv_u8_shr (pv_u8_and b 252) 2).
+Definition pv_ipv4_get_ecn (buf : list Z) : result Z := let* b := pv_buf_read 1 buf in Ok (pv_u8_and b 3).
+Definition pv_ipv4_get_tos (buf : list Z) : result Z :=
+  let* d := pv_ipv4_get_dscp buf in let* e := pv_ipv4_get_ecn buf in Ok (pv_u8_or (pv_u8_shl d 2) e).
+Definition pv_ipv4_get_total_length (buf : list Z) : result Z := buf_get_u16 2 buf.
+Definition pv_ipv4_get_identification (buf : list Z) : result Z := buf_get_u16 4 buf.
+Definition pv_ipv4_get_flags_and_fragment_offset (buf : list Z) : result Z := buf_get_u16 6 buf.
+Definition pv_ipv4_get_ttl (buf : list Z) : result Z := pv_buf_read 8 buf.
+Definition pv_ipv4_get_protocol (buf : list Z) : result Z := pv_buf_read 9 buf.
+Definition pv_ipv4_get_checksum (buf : list Z) : result Z := buf_get_u16 10 buf.
+Definition pv_ipv4_get_source (buf : list Z) : result (list Z) := buf_get_bytes 4 12 buf.
+Definition pv_ipv4_get_destination (buf : list Z) : result (list Z) := buf_get_bytes 4 16 buf.
 (* (ihl as usize * 4).saturating_sub(20) *)
-Definition ipv4_options_length (buf : list Z) : result nat :=
-  let* ihl := ipv4_get_header_length buf in Ok (Z.to_nat (ihl * 4) - 20)%nat.
+Definition pv_ipv4_options_length (buf : list Z) : result nat :=
+  let* ihl := pv_ipv4_get_header_length buf in Ok (Z.to_nat (ihl * 4) - 20)%nat.
 Definition ipv4_get_options_raw (buf : list Z) : result (list Z) :=
-  let* ol := ipv4_options_length buf in
+  let* ol := pv_ipv4_options_length buf in
   slice 20 (Nat.min (20 + ol) (length buf)) buf.
 (* repaired: an IHL that points at or beyond the end of the buffer yields an empty payload *)
 Definition ipv4_payload (buf : list Z) : result (list Z) :=
-  let* ol := ipv4_options_length buf in
+  let* ol := pv_ipv4_options_length buf in
   let start := (20 + ol)%nat in
   if (length buf <=? start)%nat then Ok [] else slice_from start buf.
 (* pinned: &buf[start..] *)
 Definition pinned_ipv4_payload (buf : list Z) : result (list Z) :=
-  let* ol := ipv4_options_length buf in slice_from (20 + ol) buf.
+  let* ol := pv_ipv4_options_length buf in slice_from (20 + ol) buf.
 
 (* ---------------- Ipv6Packet ---------------- *)
 Definition ipv6_min : nat := 40.
-Definition ipv6_get_version (buf : list Z) : result Z := let* b := buf_read 0 buf in Ok (u8_shr (u8_and b 240) 4).
-Definition ipv6_get_traffic_class (buf : list Z) : result Z :=
-  let* a := buf_read 0 buf in let* b := buf_read 1 buf in
-  Ok (u8_or (u8_shl (u8_and a 15) 4) (u8_shr (u8_and b 240) 4)).
-Definition ipv6_get_flow_label (buf : list Z) : result Z :=
-  let* a := buf_read 1 buf in let* b := buf_read 2 buf in let* c := buf_read 3 buf in
-  Ok (from_be_bytes [0; u8_and a 15; b; c]).
-Definition ipv6_get_payload_length (buf : list Z) : result Z := buf_get_u16 4 buf.
-Definition ipv6_get_next_header (buf : list Z) : result Z := buf_read 6 buf.
-Definition ipv6_get_hop_limit (buf : list Z) : result Z := buf_read 7 buf.
-Definition ipv6_get_source_address (buf : list Z) : result (list Z) := buf_get_bytes 16 8 buf.
-Definition ipv6_get_destination_address (buf : list Z) : result (list Z) := buf_get_bytes 16 24 buf.
+Definition pv_ipv6_get_version (buf : list Z) : result Z := let* b := pv_buf_read 0 buf in Ok (pv_u8_shr (pv_u8_and b 240) 4).
+Definition pv_ipv6_get_traffic_class (buf : list Z) : result Z :=
+  let* a := pv_buf_read 0 buf in let* b := pv_buf_read 1 buf in
+  Ok (pv_u8_or (pv_u8_shl (pv_u8_and a 15) 4) (pv_u8_shr (pv_u8_and b 240) 4)).
+Definition pv_ipv6_get_flow_label (buf : list Z) : result Z :=
+  let* a := pv_buf_read 1 buf in let* b := pv_buf_read 2 buf in let* c := pv_buf_read 3 buf in
+  Ok (from_be_bytes [0; pv_u8_and a 15; b; c]).
+Definition pv_ipv6_get_payload_length (buf : list Z) : result Z := buf_get_u16 4 buf.
+Definition pv_ipv6_get_next_header (buf : list Z) : result Z := pv_buf_read 6 buf.
+Definition pv_ipv6_get_hop_limit (buf : list Z) : result Z := pv_buf_read 7 buf.
+Definition pv_ipv6_get_source_address (buf : list Z) : result (list Z) := buf_get_bytes 16 8 buf.
+Definition pv_ipv6_get_destination_address (buf : list Z) : result (list Z) := buf_get_bytes 16 24 buf.
 Definition ipv6_payload (buf : list Z) : result (list Z) :=
-  let* pl := ipv6_get_payload_length buf in
+  let* pl := pv_ipv6_get_payload_length buf in
   let e := Nat.min (40 + Z.to_nat pl) (length buf) in
   if (length buf <=? 40)%nat then Ok [] else slice 40 e buf.
 
 (* ---------------- UdpPacket ---------------- *)
 Definition udp_min : nat := 8.
-Definition udp_get_source (buf : list Z) : result Z := buf_get_u16 0 buf.
-Definition udp_get_destination (buf : list Z) : result Z := buf_get_u16 2 buf.
-Definition udp_get_length (buf : list Z) : result Z := buf_get_u16 4 buf.
-Definition udp_get_checksum (buf : list Z) : result Z := buf_get_u16 6 buf.
-Definition udp_payload (buf : list Z) : result (list Z) := slice_from 8 buf.
+Definition pv_udp_get_source (buf : list Z) : result Z := buf_get_u16 0 buf.
+Definition pv_udp_get_destination (buf : list Z) : result Z := buf_get_u16 2 buf.
+Definition pv_udp_get_length (buf : list Z) : result Z := buf_get_u16 4 buf.
+Definition pv_udp_get_checksum (buf : list Z) : result Z := buf_get_u16 6 buf.
+Definition pv_udp_payload (buf : list Z) : result (list Z) := slice_from 8 buf.
 
 (* ---------------- TcpPacket ---------------- *)
 Definition tcp_min : nat := 20.
-Definition tcp_get_source (buf : list Z) : result Z := buf_get_u16 0 buf.
-Definition tcp_get_destination (buf : list Z) : result Z := buf_get_u16 2 buf.
-Definition tcp_get_sequence (buf : list Z) : result Z := buf_get_u32 4 buf.
-Definition tcp_get_acknowledgement (buf : list Z) : result Z := buf_get_u32 8 buf.
-Definition tcp_get_data_offset (buf : list Z) : result Z := let* b := buf_read 12 buf in Ok (u8_shr (u8_and b 240) 4).
-Definition tcp_get_reserved (buf : list Z) : result Z := let* b := buf_read 12 buf in Ok (u8_shr (u8_and b 14) 1).
-Definition tcp_get_flags (buf : list Z) : result Z :=
-  let* a := buf_read 12 buf in let* b := buf_read 13 buf in Ok (from_be_bytes [u8_and a 1; b]).
-Definition tcp_get_window_size (buf : list Z) : result Z := buf_get_u16 14 buf.
-Definition tcp_get_checksum (buf : list Z) : result Z := buf_get_u16 16 buf.
-Definition tcp_get_urgent_pointer (buf : list Z) : result Z := buf_get_u16 18 buf.
+Definition pv_tcp_get_source (buf : list Z) : result Z := buf_get_u16 0 buf.
+Definition pv_tcp_get_destination (buf : list Z) : result Z := buf_get_u16 2 buf.
+Definition pv_tcp_get_sequence (buf : list Z) : result Z := buf_get_u32 4 buf.
+Definition pv_tcp_get_acknowledgement (buf : list Z) : result Z := buf_get_u32 8 buf.
+Definition pv_tcp_get_data_offset (buf : list Z) : result Z := let* b := pv_buf_read 12 buf in Ok (pv_u8_shr (pv_u8_and b 240) 4).
+Definition pv_tcp_get_reserved (buf : list Z) : result Z := let* b := pv_buf_read 12 buf in Ok (pv_u8_shr (pv_u8_and b 14) 1).
+Definition pv_tcp_get_flags (buf : list Z) : result Z :=
+  let* a := pv_buf_read 12 buf in let* b := pv_buf_read 13 buf in Ok (from_be_bytes [pv_u8_and a 1; b]).
+Definition pv_tcp_get_window_size (buf : list Z) : result Z := buf_get_u16 14 buf.
+Definition pv_tcp_get_checksum (buf : list Z) : result Z := buf_get_u16 16 buf.
+Definition pv_tcp_get_urgent_pointer (buf : list Z) : result Z := buf_get_u16 18 buf.
 (* if data_offset > 5 { data_offset as usize * 4 - 20 } else { 0 } *)
 Definition tcp_options_length (buf : list Z) : result nat :=
-  let* d := tcp_get_data_offset buf in
+  let* d := pv_tcp_get_data_offset buf in
   if 5 <? d then let* n := sub_w (d * 4) 20 in Ok (Z.to_nat n) else Ok 0%nat.
 Definition tcp_get_options_raw (buf : list Z) : result (list Z) :=
   let* ol := tcp_options_length buf in
@@ -96,8 +96,8 @@ Definition tcp_payload (buf : list Z) : result (list Z) :=
 
 (* ---------------- IcmpPacket / EchoRequestPacket / EchoReplyPacket (both families: same code) ---------------- *)
 Definition icmp_min : nat := 8.
-Definition icmp_get_icmp_type (buf : list Z) : result Z := buf_read 0 buf.
-Definition icmp_get_icmp_code (buf : list Z) : result Z := buf_read 1 buf.
+Definition icmp_get_icmp_type (buf : list Z) : result Z := pv_buf_read 0 buf.
+Definition icmp_get_icmp_code (buf : list Z) : result Z := pv_buf_read 1 buf.
 Definition icmp_get_checksum (buf : list Z) : result Z := buf_get_u16 2 buf.
 Definition echo_get_identifier (buf : list Z) : result Z := buf_get_u16 4 buf.
 Definition echo_get_sequence (buf : list Z) : result Z := buf_get_u16 6 buf.
@@ -132,23 +132,23 @@ Definition icmp_common (buf : list Z) : list (result aval) :=
 Definition view_accessors (v : view) (buf : list Z) : list (result aval) :=
   match v with
   | VIpv4 =>
-    [aint (ipv4_get_version buf); aint (ipv4_get_header_length buf); aint (ipv4_get_dscp buf); aint (ipv4_get_ecn buf);
-     aint (ipv4_get_tos buf); aint (ipv4_get_total_length buf); aint (ipv4_get_identification buf);
-     aint (ipv4_get_flags_and_fragment_offset buf); aint (ipv4_get_ttl buf); aint (ipv4_get_protocol buf);
-     aint (ipv4_get_checksum buf); abytes (ipv4_get_source buf); abytes (ipv4_get_destination buf);
+    [aint (pv_ipv4_get_version buf); aint (pv_ipv4_get_header_length buf); aint (pv_ipv4_get_dscp buf); aint (pv_ipv4_get_ecn buf);
+     aint (pv_ipv4_get_tos buf); aint (pv_ipv4_get_total_length buf); aint (pv_ipv4_get_identification buf);
+     aint (pv_ipv4_get_flags_and_fragment_offset buf); aint (pv_ipv4_get_ttl buf); aint (pv_ipv4_get_protocol buf);
+     aint (pv_ipv4_get_checksum buf); abytes (pv_ipv4_get_source buf); abytes (pv_ipv4_get_destination buf);
      abytes (ipv4_get_options_raw buf); abytes (ipv4_payload buf)]
   | VIpv6 =>
-    [aint (ipv6_get_version buf); aint (ipv6_get_traffic_class buf); aint (ipv6_get_flow_label buf);
-     aint (ipv6_get_payload_length buf); aint (ipv6_get_next_header buf); aint (ipv6_get_hop_limit buf);
-     abytes (ipv6_get_source_address buf); abytes (ipv6_get_destination_address buf); abytes (ipv6_payload buf)]
+    [aint (pv_ipv6_get_version buf); aint (pv_ipv6_get_traffic_class buf); aint (pv_ipv6_get_flow_label buf);
+     aint (pv_ipv6_get_payload_length buf); aint (pv_ipv6_get_next_header buf); aint (pv_ipv6_get_hop_limit buf);
+     abytes (pv_ipv6_get_source_address buf); abytes (pv_ipv6_get_destination_address buf); abytes (ipv6_payload buf)]
   | VUdp =>
-    [aint (udp_get_source buf); aint (udp_get_destination buf); aint (udp_get_length buf); aint (udp_get_checksum buf);
-     abytes (udp_payload buf)]
+    [aint (pv_udp_get_source buf); aint (pv_udp_get_destination buf); aint (pv_udp_get_length buf); aint (pv_udp_get_checksum buf);
+     abytes (pv_udp_payload buf)]
   | VTcp =>
-    [aint (tcp_get_source buf); aint (tcp_get_destination buf); aint (tcp_get_sequence buf);
-     aint (tcp_get_acknowledgement buf); aint (tcp_get_data_offset buf); aint (tcp_get_reserved buf);
-     aint (tcp_get_flags buf); aint (tcp_get_window_size buf); aint (tcp_get_checksum buf);
-     aint (tcp_get_urgent_pointer buf); abytes (tcp_get_options_raw buf); abytes (tcp_payload buf)]
+    [aint (pv_tcp_get_source buf); aint (pv_tcp_get_destination buf); aint (pv_tcp_get_sequence buf);
+     aint (pv_tcp_get_acknowledgement buf); aint (pv_tcp_get_data_offset buf); aint (pv_tcp_get_reserved buf);
+     aint (pv_tcp_get_flags buf); aint (pv_tcp_get_window_size buf); aint (pv_tcp_get_checksum buf);
+     aint (pv_tcp_get_urgent_pointer buf); abytes (tcp_get_options_raw buf); abytes (tcp_payload buf)]
   | VIcmp => icmp_common buf
   | VEchoRequest | VEchoReply =>
     icmp_common buf ++ [aint (echo_get_identifier buf); aint (echo_get_sequence buf); abytes (echo_payload buf)]
@@ -166,8 +166,8 @@ Definition view_accessors (v : view) (buf : list Z) : list (result aval) :=
      aint (extension_object_get_class_subtype buf); abytes (extension_object_payload buf)]
   | VMplsLabelStack => [aitems (mpls_label_stack_members buf)]
   | VMplsLabelStackMember =>
-    [aint (mpls_member_get_label buf); aint (mpls_member_get_exp buf); aint (mpls_member_get_bos buf);
-     aint (mpls_member_get_ttl buf)]
+    [aint (pv_mpls_member_get_label buf); aint (pv_mpls_member_get_exp buf); aint (pv_mpls_member_get_bos buf);
+     aint (pv_mpls_member_get_ttl buf)]
   end.
 
 (* XxxPacket::new_view(buf) followed by every accessor *)
